@@ -6,6 +6,7 @@ import Qryn.Proofs.Stepped
 import Qryn.Proofs.Downsample
 import Qryn.Proofs.PromLabels
 import Qryn.Proofs.SeriesOrder
+import Qryn.Proofs.LabelsFetch
 /-! # C17 — Prometheus and Pyroscope label matchers select exactly the matching series
 
 Property theorems only.
@@ -1308,5 +1309,141 @@ example : lessSeries [([97], [49])] [([97], [49]), ([98], [50])] = true ∧
     lessSeries [([97], [49])] [([97], [49])] = true := by decide
 
 end SeriesSet
+
+/-! ## Part 10 — the labels request (`labelsGetter`, the "labels fetched afterwards" step of `CLokiQuerier.Select`)
+
+Model: `Qryn.Prom.LabelsFetch` — `fetch` (the statement `getFetchRequest` builds: table, `fingerprint IN (…)`, the two `date`
+bounds as Unix seconds whose UTC dates are the literals; `Fetch.render` is compared byte for byte with the statement the real
+`labelsGetter` sends, `Fetch.eval` with the rows the reference interpreter returns for it), `fetchLoop` (`Fetch`: the row loop
+filling `fingerprintsHas`), `get` (`Get`: `labels.Labels{}` for a fingerprint without an entry). Which instant the lower bound
+is taken from is `Gen.PromLabelsFetch.lowerOf`, re-read from the source on every run.
+`time_series` is partitioned by `date`; the writer registers a series on every UTC day it has samples and on no other day
+(C04 `acked_sample_indexed`, `series_date_is_utc_day`): `Indexed`. -/
+section LabelsFetch
+open Qryn Qryn.Prom Qryn.Prom.LabelsFetch
+
+/-- the C04 invariant as the reader needs it: every stored sample has a `time_series` row of its fingerprint on the UTC day
+    of the sample (`acked_sample_indexed` + `series_date_is_utc_day`) -/
+def Indexed (ts : List TsRow) (samples : List Smp) : Prop :=
+  ∀ s ∈ samples, ∃ r ∈ ts, r.fp = s.fp ∧ r.day = dayOfMs s.ts
+
+/-- **labels_fetch_covers.** For every window `[Start, End]` of the hints (any length, any number of UTC midnights inside),
+    every `time_series` table that holds a row of every series on every UTC day it has samples, and every list of planned
+    fingerprints: every planned fingerprint that has a sample inside `[Start, End]` — every series the sample scan returns
+    (`scan_window_ms`) — has a row in the answer of the labels request, namely the one of the sample's own day:
+    `date >= FormatFromDate(Start)` and `date <= UTC date of End` admit the day of every instant of the window. -/
+theorem labels_fetch_covers (dist : Bool) (startMs endMs : Int) (ts : List TsRow) (samples : List Smp)
+    (hidx : Indexed ts samples) (planned : List Nat) :
+    ∀ s ∈ samples, startMs ≤ s.ts → s.ts ≤ endMs → s.fp ∈ planned →
+      ∃ r ∈ (fetch dist startMs endMs planned).eval ts, r.fp = s.fp ∧ r.day = dayOfMs s.ts := by
+  intro s hs h1 h2 hp
+  obtain ⟨r, hr, hfp, hday⟩ := hidx s hs
+  refine ⟨r, mem_eval.mpr ⟨hr, ?_, ?_, ?_⟩, hfp, hday⟩
+  · simpa [fetch, fetchWith, hfp] using hp
+  · have := (day_in_range startMs endMs s.ts h1 h2).1
+    rw [fetch, lowerOf_from, lowerDay_fps, hday]; exact this
+  · have := (day_in_range startMs endMs s.ts h1 h2).2
+    rw [fetch, lowerOf_from, upperDay_fps, hday]; exact this
+
+/-- **select_series_labelled** (`labels_fetch_covers` composed with `select_matches_prometheus`). For every matcher list,
+    every well-formed database `db` of stored series, every `time_series` table whose rows carry the label set of their
+    fingerprint's stored series (`hts`: the labels of a fingerprint never change) and hold a row on every day the series has
+    samples (`hidx`), every window and every set of planned fingerprints: a fingerprint the matcher query selects that has a
+    sample inside `[Start, End]` and was planned (the row loop plans every fingerprint of the scanned rows) reaches the engine
+    under the label set of **its own stored series** — which satisfies every matcher in Prometheus' sense — and not under
+    `labels.Labels{}`; `norm` = the sort by label name. With `reshuffle_distinct_id`: series with different stored label sets
+    are not merged. -/
+theorem select_series_labelled (norm : Labels → Labels) (search full : Bytes → Bytes → Bool)
+    (hanch : ∀ p s, search (anchor p) s = full p s)
+    (table : String) (fromDate : Bytes) (tp : Int) (ms : List Matcher) (h63 : ms.length ≤ 63)
+    (db : List Stored) (wf : WellFormed db)
+    (hrow : (∃ m ∈ ms, opHolds full m.type [] m.val = false) ∨ (∀ s ∈ db, s.labels ≠ []))
+    (startMs endMs : Int) (ts : List TsRow) (samples : List Smp) (hidx : Indexed ts samples)
+    (hts : ∀ r ∈ ts, ∃ s ∈ db, s.fp = r.fp ∧ s.labels = r.labels) (planned : List Nat) :
+    ∃ q, fingerprintsQuery full table fromDate tp ms = some q ∧
+      ∀ x ∈ samples, startMs ≤ x.ts → x.ts ≤ endMs → x.fp ∈ planned →
+        x.fp ∈ q.eval search Gen.PromSelect.shiftWidth (indexRows db) →
+        ∃ s ∈ db, s.fp = x.fp ∧ promMatches full ms s = true ∧
+          labelsOf norm Gen.PromLabelsFetch.lowerOf startMs endMs planned ts x.fp = norm s.labels := by
+  obtain ⟨q, hq, hiff⟩ := select_matches_prometheus search full hanch table fromDate tp ms h63 db wf hrow
+    (0 : Nat)
+  refine ⟨q, hq, ?_⟩
+  intro x hx h1 h2 hp hsel
+  obtain ⟨q', hq', hiff'⟩ := select_matches_prometheus search full hanch table fromDate tp ms h63 db wf hrow x.fp
+  have hqq : q' = q := by rw [hq] at hq'; exact (Option.some.inj hq').symm
+  subst hqq
+  obtain ⟨s, hs, hfp, _, hm⟩ := hiff'.mp hsel
+  refine ⟨s, hs, hfp, hm, ?_⟩
+  obtain ⟨r, hr, hrfp, _⟩ := labels_fetch_covers false startMs endMs ts samples hidx planned x hx h1 h2 hp
+  have hall : ∀ r' ∈ (fetch false startMs endMs planned).eval ts, r'.fp = x.fp → r'.labels = s.labels := by
+    intro r' hr' hf'
+    obtain ⟨s', hs', hfp', hl'⟩ := hts r' (mem_eval.mp hr').1
+    have : s' = s := eq_of_fp wf.fps hs' hs (by rw [hfp', hf', hfp])
+    rw [← hl', this]
+  unfold labelsOf LabelsFetch.get
+  have := fetchLoop_some norm _ x.fp s.labels ⟨r, hr, hrfp⟩ hall
+  unfold fetch at this
+  rw [this]; rfl
+
+/-- "last day only" is not enough: the request that takes its lower bound from `l.DateTo` (`FormatFromDate(l.DateTo)`, the
+    partition of the last UTC day, plus the previous one during the first 30 minutes of a day) — kernel-checked: window
+    2023-11-14T21:00Z … 2023-11-15T01:00Z, series 7 with one sample at 22:00 of the first day and its `time_series` row on that
+    day, series 9 reporting on both days. The `Indexed` table satisfies the hypothesis of `labels_fetch_covers`; the request
+    returns no row of 7, `Get` hands out `labels.Labels{}`. -/
+theorem labels_fetch_last_day_counterexample :
+    let startMs : Int := 1699995600000
+    let endMs : Int := 1700010000000
+    let l7 : Labels := [([105], [98])]
+    let l9 : Labels := [([105], [97])]
+    let ts : List TsRow := [⟨19675, 7, l7⟩, ⟨19675, 9, l9⟩, ⟨19676, 9, l9⟩]
+    let samples : List Smp := [⟨7, 1699999200000⟩, ⟨9, 1699999200000⟩, ⟨9, 1700008000000⟩]
+    (∀ s ∈ samples, ∃ r ∈ ts, r.fp = s.fp ∧ r.day = dayOfMs s.ts) ∧
+    (∀ s ∈ samples, startMs ≤ s.ts ∧ s.ts ≤ endMs) ∧
+    ((fetchWith "to" false startMs endMs [7, 9]).eval ts).map (·.fp) = [9] ∧
+    labelsOf id "to" startMs endMs [7, 9] ts 7 = [] ∧
+    ((fetchWith "from" false startMs endMs [7, 9]).eval ts).map (·.fp) = [7, 9, 9] ∧
+    labelsOf id "from" startMs endMs [7, 9] ts 7 = l7 := by
+  decide
+
+/-- … also for a window that ends in the first 30 minutes of a day, where "last day only" reads two partitions: a series that
+    stopped two days before the end (kernel-checked; 2023-11-13T23:00Z … 2023-11-15T00:10Z, sample at 23:30 of the first day) -/
+theorem labels_fetch_last_day_first_half_hour_counterexample :
+    let startMs : Int := 1699916400000
+    let endMs : Int := 1700007000000
+    let ts : List TsRow := [⟨19674, 7, [([105], [98])]⟩]
+    (dayOfMs 1699918200000 = 19674 ∧ startMs ≤ 1699918200000 ∧ (1699918200000 : Int) ≤ endMs) ∧
+    ((fetchWith "to" false startMs endMs [7]).lowerDay, (fetchWith "to" false startMs endMs [7]).upperDay) = (19675, 19676) ∧
+    labelsOf id "to" startMs endMs [7] ts 7 = [] ∧
+    labelsOf id "from" startMs endMs [7] ts 7 = [([105], [98])] := by
+  decide
+
+/-- the date bounds of the request as the code has them now (`Gen.PromLabelsFetch`): lower = UTC date of `hints.Start − 30 min`,
+    upper = UTC date of `hints.End`; the literals of the rendered statement are the `YYYY-MM-DD` texts of exactly these days -/
+theorem labels_fetch_bounds (dist : Bool) (startMs endMs : Int) (fps : List Nat) :
+    (fetch dist startMs endMs fps).lowerDay = (startMs / 1000 - 1800) / 86400 ∧
+    (fetch dist startMs endMs fps).upperDay = endMs / 1000 / 86400 ∧
+    (fetch dist startMs endMs fps).table = (if dist then "time_series_dist" else "time_series") := by
+  simp only [fetch, lowerOf_from]
+  refine ⟨rfl, rfl, ?_⟩
+  cases dist <;> rfl
+
+/-- a fingerprint without a row in the answer gets `labels.Labels{}` — the reason `labels_fetch_covers` is needed -/
+theorem labels_missing_row_empty (norm : Labels → Labels) (lowerOf : String) (startMs endMs : Int) (planned : List Nat)
+    (ts : List TsRow) (f : Nat) (h : ∀ r ∈ (fetchWith lowerOf false startMs endMs planned).eval ts, r.fp ≠ f) :
+    labelsOf norm lowerOf startMs endMs planned ts f = [] := by
+  unfold labelsOf LabelsFetch.get
+  rw [fetchLoop_none norm _ f h]; rfl
+
+-- non-vacuity: a three-day window (two midnights), series on the first / a middle / the last day only
+example :
+    let ts : List TsRow := [⟨19674, 1, [([97], [49])]⟩, ⟨19675, 2, [([97], [50])]⟩, ⟨19676, 3, [([97], [51])]⟩]
+    let samples : List Smp := [⟨1, 1699900000000⟩, ⟨2, 1700000000000⟩, ⟨3, 1700090000000⟩]
+    Indexed ts samples ∧
+    (samples.map (fun s => labelsOf id Gen.PromLabelsFetch.lowerOf 1699899000000 1700095000000 [1, 2, 3] ts s.fp)) =
+      [[([97], [49])], [([97], [50])], [([97], [51])]] := by
+  unfold Indexed
+  decide
+
+end LabelsFetch
 
 end Qryn.C17
